@@ -318,9 +318,10 @@ func TestC17Band(t *testing.T) {
 		corpus = append(corpus, f.plan)
 	}
 
-	// check-flag reset during an outage: an asset is added while the oracle is silent; the first
-	// check after it sets the temp id to 0, so the second one takes the old acknowledged request
-	// for a new one and delivers its (already consumed) result once more
+	// check-flag reset during an outage (regression for C17-F4): an asset is added while the oracle
+	// is silent; the first check after it used to set the temp id to 0, so the second one took the
+	// old acknowledged request for a new one and delivered its already consumed result once more.
+	// With the repaired hook (temp id = last acknowledged id) the second check stays silent.
 	for _, n := range []uint64{1, 2} {
 		f := &feed{}
 		asset(f, true)
